@@ -163,6 +163,14 @@ async def run(ctx):
         ctx.count("empty_expressions")
         if aout[0] != "ok" or aout[1].format_constraints_fulfilled is not True or aout[1].error_message is not None:
             ctx.violation("empty-expression", f"format_constraint_evaluation({empty!r}) {describe(aout)[:200]}; expected fulfilled without message")
+    # ---- small scope, complete: EVERY U/O/X expression with up to 3 (thorough: 4) leaves over three keys, minimal brackets, all 2^n assignments
+    idx = 0
+    for n in range(1, (3 if ctx.quick else 4) + 1):
+        for ast in G.enumerate_fc_asts(n):
+            idx += 1
+            if ctx.mine(idx):
+                await check_expression(ctx, {"ast": ast, "s": G.render(ast, rng, G.Style(p_redundant=0.0, flat_runs=1.0 if idx % 2 else 0.0, spell=idx % 3, ws="", flatten_any=True))})
+                ctx.count("small_scope_expressions")
     for i in range(ctx.budget(1800, 90_000)):
         depth = rng.choice([0, 1, 2, 2, 3, 3, 4])
         ast = G.gen_fc_only(rng, depth, max_leaves=10 if rng.random() < 0.9 else 16)
